@@ -143,10 +143,15 @@ def check(ctx):
 
     # ------------------------------------------------------------------ R2
     n_calls = 0
+    tmod = ctx.repo.module(AS)
+    visitor_quals = {f"CtxAwareTransformer.{n_}" for n_ in class_methods(cls) if n_.startswith("visit_") or n_ in ("ctxvisit", "generic_visit")}
     for name, fn in class_methods(cls).items():
         if name == "try_subproc_toks":
             continue
-        calls = [c for c in calls_in(fn) if call_name(c) == "self.try_subproc_toks"]
+        if not (name.startswith("visit_") or name in ("ctxvisit",)) and only_called_from(ctx.repo, tmod, f"CtxAwareTransformer.{name}", visitor_quals):
+            continue  # a helper of visitors: judged where it is used, on the visitors' helper-transparent view
+        fn = flat(ctx, fn, depth=2, skip=("is_in_scope", "try_subproc_toks", "_looks_like_flag_subproc", "visit", "generic_visit"))
+        calls = [c for c in calls_in(fn) if call_name(c) == "self.try_subproc_toks" and not getattr(stmt_of(c), "_xv_call_marker", False)]
         if not calls:
             continue
         cfg = CFG(fn)
@@ -184,7 +189,8 @@ def check(ctx):
     trues = [n for n in lcfg.nodes if n.kind == "stmt" and isinstance(n.ast, ast.Return) and not (isinstance(n.ast.value, ast.Constant) and n.ast.value.value is False)]
     gate = [n for n in lcfg.nodes if n.kind == "if" and "XONSH_BUILTINS_TO_CMD" in unparse(n.ast.test)]
     ok = bool(gate) and all(lcfg.edge_dominates(gate[0], "false", t) for t in trues)
-    ctx.ob("R2", f"{AS}:CtxAwareTransformer._looks_like_flag_subproc", "can answer True only when $XONSH_BUILTINS_TO_CMD is set, and never for user-bound names", ok and "_user_names" in unparse(lf) and "self.contexts[1:]" in unparse(lf), key="flag-heuristic-gate")
+    lf_txt = unparse(flat(ctx, lf, depth=2))
+    ctx.ob("R2", f"{AS}:CtxAwareTransformer._looks_like_flag_subproc", "can answer True only when $XONSH_BUILTINS_TO_CMD is set, and never for user-bound names", ok and "_user_names" in lf_txt and "self.contexts[1:]" in lf_txt, key="flag-heuristic-gate")
     # is_in_scope: stored names are discounted, every scope is consulted innermost-first
     isf = class_methods(cls).get("is_in_scope")
     if isf is None:
@@ -199,6 +205,7 @@ def check(ctx):
         if fn is None:
             continue
         st = f"{AS}:CtxAwareTransformer.visit_{construct}"
+        fn = flat(ctx, fn, depth=2, skip=("ctxadd", "ctxupdate", "generic_visit", "visit"))
         cfg = CFG(fn)
         push = [n for n in cfg.nodes if n.kind == "stmt" and any(call_name(c) == "self.contexts.append" for c in calls_in(n.ast))]
         pop = [n for n in cfg.nodes if n.kind == "stmt" and any(call_name(c) == "self.contexts.pop" for c in calls_in(n.ast))]
